@@ -368,12 +368,16 @@ func c15Run(env *core.Env, ci any) core.Outcome {
 				return bad("removed", "entry removed: %s", p)
 			}
 		}
-		var want strings.Builder
+		// the -v log mentions exactly the processed files, once each, in path order (wording is free)
+		rest := r.Stdout
 		for _, p := range expected {
-			fmt.Fprintf(&want, "%s: patched\n", sb.path("work/"+p))
+			var ok bool
+			if rest, ok = cutLogLine(rest, sb.path("work/"+p)); !ok {
+				return bad("order-or-log", "-v log: expected a line about %s next, log is %q", p, r.Stdout)
+			}
 		}
-		if r.Stdout != want.String() {
-			return bad("order-or-log", "-v log differs:\n got %q\nwant %q", r.Stdout, want.String())
+		if rest != "" {
+			return bad("order-or-log", "-v log has extra lines: %q (expected files %v)", rest, expected)
 		}
 		return out
 	}
